@@ -119,6 +119,10 @@ pub fn plan_for(property: &str) -> Option<(&'static str, Vec<PlanItem>)> {
             "C12",
             vec![PlanItem { family: "multi", run: c12_multi, quick: 3000, thorough: 100000, determinism_check: true }],
         ),
+        "C13" => (
+            "C13",
+            vec![PlanItem { family: "accept", run: c13_accept, quick: 4000, thorough: 150000, determinism_check: true }],
+        ),
         "C17" => (
             "C17",
             vec![PlanItem { family: "handshake", run: c17_hs, quick: 8000, thorough: 250000, determinism_check: true }],
@@ -685,6 +689,30 @@ fn c08_life(ctx: &CaseCtx) -> CaseReport {
     }
     rep.counters.add("datagrams", view.pkts.len() as u64);
     rep.nontrivial = rep.counters.get("c08_connection_ends_judged") >= 2;
+    let end = run.end_time;
+    finish(&mut rep, ctx, &view, run.events, end);
+    rep
+}
+
+fn c13_accept(ctx: &CaseCtx) -> CaseReport {
+    use crate::fam::accept as ac;
+    let mut rep = CaseReport::new(ctx.family, ctx.index, ctx.case_seed);
+    let (cfg, plan, pdesc) = ac::generate(ctx.case_seed);
+    rep.desc = format!("{} plan[{}]", cfg.describe(), pdesc);
+    let run = ac::run_accept(ctx.case_seed, &cfg, plan);
+    if let Some(p) = &run.panicked {
+        rep.counters.inc("cases_with_panic");
+        rep.inconclusive.push(format!("panic during the run: {p}"));
+    }
+    if run.deadline_hit {
+        rep.inconclusive.push("virtual deadline hit".into());
+    }
+    let view = WireView::build(&run.events);
+    mon::c13::check(&mut rep, &run.events, &cfg, run.result.as_ref());
+    rep.labels.push(format!("{:?}", cfg.shape));
+    rep.counters.inc(&format!("c13_cases_{:?}", cfg.shape).to_lowercase());
+    rep.counters.add("datagrams", view.pkts.len() as u64);
+    rep.nontrivial = rep.counters.get("c13_distinct_syns") >= 2;
     let end = run.end_time;
     finish(&mut rep, ctx, &view, run.events, end);
     rep
